@@ -57,10 +57,40 @@ func (t *Term) IsConst() bool { return t.isConst }
 func (t *Term) Bool() bool    { return t.bv != 0 }
 
 type TermBuilder struct {
-	tab   map[string]*Term
-	next  int
-	vars  []*Term
-	varBy map[string]*Term
+	tab    map[string]*Term
+	next   int
+	vars   []*Term
+	varBy  map[string]*Term
+	varsOf map[int][]*Term // memo: variables occurring in a term
+	dom    map[string][2]int64 // known small domains of variables (inclusive)
+}
+
+// VarsOf returns the variables occurring in t (memoised).
+func (b *TermBuilder) VarsOf(t *Term) []*Term {
+	if t.isConst {
+		return nil
+	}
+	if t.op == "var" {
+		return []*Term{t}
+	}
+	if b.varsOf == nil {
+		b.varsOf = map[int][]*Term{}
+	}
+	if v, ok := b.varsOf[t.id]; ok {
+		return v
+	}
+	seen := map[int]bool{}
+	var out []*Term
+	for _, a := range t.args {
+		for _, v := range b.VarsOf(a) {
+			if !seen[v.id] {
+				seen[v.id] = true
+				out = append(out, v)
+			}
+		}
+	}
+	b.varsOf[t.id] = out
+	return out
 }
 
 func NewTermBuilder() *TermBuilder {
